@@ -218,7 +218,7 @@ exprassign(struct expr *e, struct type *t)
 	case TYPESTRUCT:
 	case TYPEUNION:
 		if (!typecompatible(t, et))
-			error(&tok.loc, "assignment to %s type must be from compatible type", tokstr[t->kind]);
+			error(&tok.loc, "assignment to %s type must be from compatible type", t->kind == TYPESTRUCT ? "struct" : "union");
 		break;
 	default:
 		if (!(t->prop & PROPARITH))
@@ -1311,7 +1311,7 @@ mkassignexpr(struct expr *l, struct expr *r)
 
 	e = mkexpr(EXPRASSIGN, l->type, NULL);
 	e->u.assign.l = l;
-	e->u.assign.r = exprconvert(r, l->type);
+	e->u.assign.r = exprassign(r, l->type);
 	return e;
 }
 
